@@ -3,7 +3,7 @@ import os
 from oblib import ob
 
 # error templates: '?' = one byte of zz16Sigma = { } [ ] : , " a 1 space b 2 ~ / \
-ERR_T_Q = ['{"a":{"b":1?', '[{"a":1?', '{"a":[1?', '{"a":1,"?":2}', '{"a":1,"a":?}']
+ERR_T_Q = ['{"a":{"b":1?', '[{"a":1?', '{"a":[1?', '{"a":1,"?":2}', '{"a":1,"a":?}', '{"\\u0061\\u007e":[1?', '{"\\/b":{"c":1,"\\u0063":?}']
 ERR_T_T = ['[{"a":1??', '{"a":{"b":??', '{"a":[{"b":1}??', '[[1,{"a~/b":[??', '{"a":{"b":{"c":1?', '[1,{"a":1,"?":??', '{"a":[1,[?,?', '{"~/":{"a":??']
 POS_T_Q = ['{"?":[?,?]}', '[{"?~/":?}]']
 POS_T_T = ['{"a":{"?":?},"?":1}', '[[?],{"\\?":[?]}]', '{"?":1,"?":[?]}']
@@ -34,7 +34,7 @@ def obligations(tier):
             L.append(ob("errD/%s/allowdup/len<=4" % path[vp], "jsontext", "VerifC16ErrD", ["", 4, 3, vp, True], covers=["clean", "invalid", "truncated"]))
         for i, t in enumerate(ERR_T_Q if q else ERR_T_Q + ERR_T_T):
             L.append(ob("errD/%s/t%d" % (path[vp], i), "jsontext", "VerifC16ErrD", [t, 0, 16, vp, False],
-                        covers=["duplicate"] if i in (3, 4) else ["invalid", "nested"]))
+                        covers=["duplicate"] if i in (3, 4, 6) else ["invalid", "nested"]))
 
     # posD: positions after every decoder call
     n = 4 if q else 6
@@ -50,6 +50,9 @@ def obligations(tier):
     for pre in ((0, 1, 2, 4) if q else range(6)):
         for k, sl, rl in ([(2, 1, 2)] if q else [(2, 2, 3), (3, 1, 2)]):
             L.append(ob("posE/pre=%d/k=%d/str=%d/raw=%d" % (pre, k, sl, rl), "jsontext", "VerifC16PosE", [pre, k, sl, rl, False], covers=["accepted", "rejected"]))
+    # names written as raw values, duplicate names allowed (the name stack must still be kept for StackPointer)
+    for pre in (0, 1):
+        L.append(ob("posE/pre=%d/k=2/str=1/raw=3/allowdup" % pre, "jsontext", "VerifC16PosE", [pre, 2, 1, 3, True], covers=["accepted", "rejected"]))
     if not q:
         L.append(ob("posE/pre=0/k=4/str=1/raw=1", "jsontext", "VerifC16PosE", [0, 4, 1, 1, False], covers=["accepted", "rejected", "nested"]))
         L.append(ob("posE/pre=4/k=2/allowdup", "jsontext", "VerifC16PosE", [4, 2, 2, 3, True], covers=["accepted", "rejected", "nested"]))
